@@ -47,7 +47,11 @@ pub fn run_case(u: &Universe, case: &Value) -> Vec<Value> {
             w
         })
         .collect();
-    match catch_unwind(|| Desc::from_str(&ds)) {
+    // the sane descriptor parser first; trees it refuses (e.g. a leaf that mixes lock units) through Tr::from_str
+    let parsed = catch_unwind(|| {
+        Desc::from_str(&ds).or_else(|e| miniscript::descriptor::Tr::from_str(&ds).map(Descriptor::Tr).map_err(|_| e))
+    });
+    match parsed {
         Err(_) => ev["parse"] = json!("panic"),
         Ok(Err(e)) => {
             ev["parse"] = json!("err");
@@ -69,6 +73,13 @@ pub fn run_case(u: &Universe, case: &Value) -> Vec<Value> {
                 }
             }
             ev["res"] = json!(res);
+            // lift (C07)
+            use miniscript::policy::Liftable;
+            ev["lift"] = match catch_unwind(std::panic::AssertUnwindSafe(|| d.lift())) {
+                Err(_) => json!({"st": "panic", "pol": {"p": "unsat", "n": 0, "xs": []}}),
+                Ok(Err(e)) => json!({"st": "err", "msg": e.to_string(), "pol": {"p": "unsat", "n": 0, "xs": []}}),
+                Ok(Ok(p)) => json!({"st": "ok", "pol": crate::astobs::pol_to_json(u, &p)}),
+            };
         }
     }
     vec![ev]
